@@ -164,6 +164,21 @@ def make_sampler(desc: dict, ctor_seed: int):
     return s
 
 
+MODEL_D = [1]      # number of columns of the simulated series (set per script; the model is called with (theta, N, seed) only)
+
+
+def model_series(theta, N, seed, D):  # noqa: N803
+    """the series the scripted model returns: column 0 encodes (vector, seed, N), further columns are different functions of
+    the same data, so that any transposition / mis-reshape of the (batch, member, N, D) block is visible"""
+    th = [float(x) for x in theta][:4] + [0.0] * (4 - len(theta))
+    col = th + [float(seed & 0xFFFF), float(seed >> 16), float(N), 77.0]
+    col = np.array((col + [float(k) for k in range(N)])[:N], dtype=float)
+    cols = [col]
+    for d in range(1, D):
+        cols.append(np.array([col[(t * 3 + d) % N] * (d + 1) + t for t in range(N)], dtype=float))
+    return np.stack(cols, axis=1)
+
+
 def scripted_model(theta, N, seed):  # noqa: N803
     """Series whose entries encode (vector, N, seed): the stored series reveal which run produced them."""
     rec = REC
@@ -173,44 +188,61 @@ def scripted_model(theta, N, seed):  # noqa: N803
             rec.log({"e": "fault", "at": "model"})
             raise Injected("model")
         rec.log({"e": "model", "pid": rec.pid(theta), "N": int(N), "sp": rec.seedpos.get(seed, -1)})
-    th = [float(x) for x in theta][:4] + [0.0] * (4 - len(theta))
-    col = th + [float(seed & 0xFFFF), float(seed >> 16), float(N), 77.0]
-    col = (col + [0.0] * N)[:N]
-    return np.array(col, dtype=float).reshape(N, 1)
+    return model_series(theta, N, seed, MODEL_D[0])
 
 
-def decode_series(series_1d):
-    th = tuple(float(x) for x in series_1d[:4])
-    seed = int(series_1d[4]) + (int(series_1d[5]) << 16)
+def decode_series(series):
+    """(vector, seed) a stored (N, D) series was simulated with - or (None, -1) when it is not exactly what the model returns for them"""
+    series = np.asarray(series, dtype=float)
+    if series.ndim == 1:
+        series = series.reshape(-1, 1)
+    col = series[:, 0]
+    th = tuple(float(x) for x in col[:4])
+    seed = int(col[4]) + (int(col[5]) << 16)
+    want = model_series(th, series.shape[0], seed, series.shape[1])
+    if want.shape != series.shape or not np.array_equal(want, series):
+        return (-1.0, -1.0, -1.0, -1.0), -1
     return th, seed
 
 
 class TableLoss(BaseLoss):
     """Scripted loss: the value is a table look-up on the (decoded) vector the series were simulated at."""
 
-    def __init__(self, table: dict, default: int) -> None:
-        super().__init__(None, None)
+    def __init__(self, table: dict, default: int, dims: int = 1) -> None:
+        super().__init__(np.array([1.0] + [0.0] * (dims - 1)), None)
         self.table = table
         self.default = default
 
+    def compute_loss(self, sim_data_ensemble, real_data):
+        """(observation point: the whole (E, N, D) block handed over by the calibrator; the value comes from the base-class fold)"""
+        self._block = np.asarray(sim_data_ensemble)
+        self._fresh = True
+        return super().compute_loss(sim_data_ensemble, real_data)
+
     def compute_loss_1d(self, sim_data_ensemble, real_data):  # noqa: ARG002
         rec = REC
-        mem = [decode_series(sim_data_ensemble[e]) for e in range(sim_data_ensemble.shape[0])]
-        th = mem[0][0]
-        key = f"{int(th[0])},{int(th[1])},{int(th[2])}"
-        a = self.table.get(key, self.default)
+        block = getattr(self, "_block", None)
+        if block is None or not getattr(self, "_fresh", True):
+            return 0.0
+        self._fresh = False                               # only the first coordinate of a compute_loss call carries the value
+        mem = [decode_series(block[e]) for e in range(block.shape[0])]
+        a = self.default
         if rec is None:
+            self._fresh = True
             return a * 1e-4
-        if rec.enabled:
-            if rec.fault_now("loss"):
-                rec.log({"e": "fault", "at": "loss"})
-                raise Injected("loss")
-            seq = rec.script.get("loss", {}).get("seq", [])
-            if rec.loss_ok < len(seq):
-                a = seq[rec.loss_ok]          # scripted by (successful) invocation index
-            rec.loss_ok += 1
-            rec.log({"e": "loss", "mem": [[rec.pid(t), rec.seedpos.get(s, -1)] for t, s in mem], "val": a})
-        return rec.loss_float(a)
+        try:
+            if rec.enabled:
+                if rec.fault_now("loss"):
+                    rec.log({"e": "fault", "at": "loss"})
+                    raise Injected("loss")
+                seq = rec.script.get("loss", {}).get("seq", [])
+                if rec.loss_ok < len(seq):
+                    a = seq[rec.loss_ok]          # scripted by (successful) invocation index
+                rec.loss_ok += 1
+                rec.log({"e": "loss", "mem": [[rec.pid(t), rec.seedpos.get(s, -1)] for t, s in mem], "val": a})
+            return rec.loss_float(a)      # (weights are (1, 0, .., 0): the weighted sum is exactly the scripted value)
+        finally:
+            pass
 
 
 class ScriptedAgent(Agent):
@@ -341,7 +373,7 @@ def project_rows(rec: Recorder, cal) -> list[dict]:
         mem = []
         if ser is not None:
             for e in range(ser.shape[0]):
-                th, sd = decode_series(ser[e, :, 0])
+                th, sd = decode_series(ser[e])
                 mem.append([rec.pid(th), rec.seedpos.get(sd, -1)])
         loss = get(cal.losses_samp)
         b = get(cal.batch_num_samp)
@@ -449,12 +481,14 @@ def run_script(script: dict) -> dict:
     try:
         with quiet():
             samplers = [make_sampler(d, 9000 + i) for i, d in enumerate(cfg["lineup"])]
-            loss = TableLoss(script.get("loss", {}).get("by", {}), script.get("loss", {}).get("default", 6))
-            real = np.zeros((N_SIM, 1))
+            loss = TableLoss(script.get("loss", {}).get("by", {}), script.get("loss", {}).get("default", 6), int(cfg.get("D", 1)))
+            MODEL_D[0] = int(cfg.get("D", 1))
+            real = np.zeros((cfg.get("Nreal", cfg["N"]), MODEL_D[0]))
             sched = build_scheduler(cfg, samplers, script.get("agent"))
             kw = {"samplers": samplers} if sched is None else {"scheduler": sched}
             cal = Calibrator(loss_function=loss, real_data=real, model=scripted_model, parameters_bounds=SPACE_BOUNDS,
                              parameters_precision=SPACE_PREC, ensemble_size=cfg["E"],
+                             sim_length=None if cfg.get("Nreal", cfg["N"]) == cfg["N"] else cfg["N"],
                              convergence_precision=cfg["prec"] if cfg["convon"] else None, verbose=cfg["verbose"],
                              saving_folder=folder if cfg["saving"] else None, random_state=cfg["seed"],
                              n_jobs=cfg.get("njobs", 1), **kw)
